@@ -366,3 +366,77 @@ def s_normalize_subscript(_ctx):
 
 SCENARIOS.append(Scenario("C11.ast_utils.normalize_subscript_expr", s_normalize_subscript,
                           [("onnxscript/_internal/ast_utils.py", "normalize_subscript_expr")], kind="evaluation"))
+
+
+def s_subscript_scopes(ctx):
+    """Subscript expressions in nested scopes (C02 'every value is defined in scope before it is used'): `A[1:2]` translated inside an If branch
+    / Loop body (a nested graph) and then again in the enclosing graph (or in a sibling branch): every operand of a node emitted for the
+    SECOND expression is produced in the graph that node is in or in an enclosing one — never in the nested graph that was closed."""
+    I = Interp(ctx, models=models())
+    self = CM.new_converter(I)
+    C = CM._conv_cls()
+    from onnxscript._internal import irbuilder
+
+    def fresh_fn(interp, name, *a):
+        f = SObj(irbuilder.IRFunction, "nested_fn")
+        f.fields.update(name=name, ghost_nodes=[], opset_imports={})
+        return f
+    I.models[irbuilder.IRFunction] = fresh_fn
+    log = ctx.ghost["log"]
+
+    src = ["A[1:2]", "A[0:2:1]", "A[1:, 0:1]"][ctx.choose(3, "expression")]
+
+    def subscript(tag):
+        return ast.parse(src).body[0].value      # a real ast.Subscript with literal bounds (the literals are what the constant cache is keyed by)
+    where = ["nested scope first, then the enclosing scope", "nested scope first, then a sibling nested scope", "enclosing scope first, then a nested scope"][ctx.choose(3, "order")]
+    outer_fn = self.fields["_current_fn"]
+    outer_fn.fields.setdefault("opset_imports", {})
+
+    def translate(tag):
+        n0 = len(log.nodes)
+        try:
+            I.call(I.getattr(self, "_translate_subscript_expr"), [subscript(tag), None])
+        except PyRaise:
+            return None
+        return log.nodes[n0:]
+
+    def nested(tag):
+        I.call(I.getattr(self, "_enter_scope"), ["branch_" + tag, None])
+        fn = self.fields["_current_fn"]
+        nodes = translate(tag)
+        I.call(I.getattr(self, "_exit_scope"), [])
+        return fn, nodes
+    closed = []
+    if where.startswith("nested scope first"):
+        fn1, n1 = nested("first")
+        closed.append(fn1)
+        if "sibling" in where:
+            fn2, n2 = nested("second")
+            visible = [outer_fn, fn2]
+        else:
+            n2 = translate("second")
+            visible = [outer_fn]
+    else:
+        n1 = translate("first")
+        fn2, n2 = nested("second")
+        visible = [outer_fn, fn2]
+    if n1 is None or n2 is None:
+        ctx.cover("subscript.scopes.refused")
+        return
+    ctx.cover("subscript.scopes." + where.split(",")[0].replace(" ", "_"))
+    ok = True
+    why = ""
+    for e in n2:
+        for v in e["inputs"]:
+            prod = v.fields.get("ghost_node") if isinstance(v, SObj) else None
+            if prod is not None and not any(prod.get("scope") is f for f in visible):
+                ok = False
+                why = f"{e['op']} reads {v.fields.get('name')!r}, produced in a graph that is not an enclosing one"
+    ctx.check("C02.converter.subscript.operands_are_defined_in_the_graph_or_an_enclosing_one", ok,
+              "C02: 'every value name is defined exactly once, before use and in scope' — " + where + ("; " + why if why else ""))
+
+
+SCENARIOS.append(Scenario("C02.converter.subscript_scopes", s_subscript_scopes,
+                          [("onnxscript/_internal/converter.py", "Converter._translate_subscript_expr"), ("onnxscript/_internal/converter.py", "Converter._enter_scope"),
+                           ("onnxscript/_internal/converter.py", "Converter._exit_scope")],
+                          kind="bounded", bound="the same slice expression with literal bounds (3 forms) translated in two scopes: nested then enclosing / nested then sibling / enclosing then nested"))
